@@ -772,7 +772,7 @@ def main():
         workers = int(os.environ.get("VERIF_JOBS", "0") or 0) or min(16, max(1, os.cpu_count() or 4))
         heavy = sum(1 for o in obs if o.get("mem_gb", 8) > 8)
         if heavy:
-            workers = min(workers, 8)
+            workers = min(workers, 12)      # memory caps are caps, measured peaks are 1-4 GB per obligation
         results = {}
         replayer = Replayer(scratch, files, kf_active)
         with cf.ThreadPoolExecutor(max_workers=workers) as ex:
